@@ -83,6 +83,31 @@ PROPS = {
         "not_covered": ["spans_disjoint (no two returned spans overlap) needs the disjointness of token-derived spans (C12 + C02's extension bound) and is checked by the bounded stand-in only",
                         "idempotence of filter_citations is checked by the bounded stand-in only"],
     },
+    "C09": {
+        "contracts": ["a_common", "annotate"],
+        "functions": ["annotate.SpanUpdater.__init__", "annotate.SpanUpdater.update", "utils.maybe_balance_style_tags", "annotate.annotate_citations"],
+        "assumptions": ["the deletion formulation ('deleting the inserted strings restores the target') is replaced by the ghost `content`: the concatenation of the "
+                        "document-text parts appended to the output equals the target text; the two are equivalent when the inserted strings do not occur in the texts (informal step)",
+                        "documented domain: annotator is None, every annotation span satisfies 0 <= start <= end <= len(plain_text), before/after are strings",
+                        "in 'wrap' mode the document part of the wrapped span is the unwrapped slice (E-RE-SUB for wrap_html_tags: only insertions)",
+                        "E-DIFF for both diff engines (steps tile both strings; minimality not assumed)",
+                        "excluded corner: empty plain text with a non-empty source text (SpanUpdater has no range; IndexError)"],
+        "not_covered": [],
+    },
+    "C10": {
+        "contracts": ["a_common", "annotate"],
+        "functions": ["annotate.SpanUpdater.__init__", "annotate.SpanUpdater.update", "utils.maybe_balance_style_tags", "annotate.annotate_citations"],
+        "assumptions": ["E-DIFF for both diff engines; E-BISECT", "clause A is proved for 'unchecked' mode without a source text (step clause emits_exact)",
+                        "clause B: translated offsets stay within the source (in_range) is proved for both bisect variants; monotonicity of the translation is checked by the bounded stand-in only"],
+        "not_covered": ["clause C (each annotation encloses exactly the source characters of its plain span) needs minimality/uniqueness of the diff and is bounded (stand-in) only"],
+    },
+    "C11": {
+        "contracts": ["a_common", "annotate"],
+        "functions": ["annotate.SpanUpdater.__init__", "annotate.SpanUpdater.update", "utils.maybe_balance_style_tags", "annotate.annotate_citations"],
+        "assumptions": ["E-LXML: is_balanced_html is an uninterpreted predicate wf(s)",
+                        "L-XML (assumed, not proved): disjoint ordered wf spans wrapped in balanced elements keep a well-formed document well-formed"],
+        "not_covered": ["the parse step itself (output parses under lxml) is checked by the bounded stand-in only"],
+    },
     "C12": {
         "contracts": ["a_common", "helpers", "tokenizers"],
         "functions": ["models.Token.merge", "tokenizers.token_is_from_nominative_reporter", "tokenizers.Tokenizer.tokenize"],
